@@ -87,6 +87,22 @@ func c05Check(c C05Case, cx *h.Ctx) *h.Failure {
 	if string(app) != string(prefix)+text {
 		return h.Failf("wkt/append", "AppendWKT(%q) = %q, want prefix+AsText() = %q", prefix, app, string(prefix)+text)
 	}
+	for _, spare := range []int{len(text), len(text) - 1, len(text) + 31} {
+		if spare < 0 {
+			continue
+		}
+		backing := make([]byte, len(prefix)+spare+8)
+		for i := range backing {
+			backing[i] = '#'
+		}
+		copy(backing, prefix)
+		if app := g.AppendWKT(backing[:len(prefix):len(prefix)+spare]); string(app) != string(prefix)+text {
+			return h.Failf("wkt/append", "AppendWKT(%q with %d spare bytes) = %q, want prefix+AsText() = %q", prefix, spare, app, string(prefix)+text)
+		}
+		if string(backing[len(prefix)+spare:]) != "########" {
+			return h.Failf("wkt/append-overrun", "AppendWKT wrote beyond the capacity of its destination for %s", model)
+		}
+	}
 	if f := c05Concrete(g, prefix, text); f != nil {
 		return f
 	}
